@@ -143,6 +143,25 @@ Theorem C10_depth_cut_reported : forall d runs records,
 Proof. exact depth_cut_reported. Qed.
 Print Assumptions C10_depth_cut_reported.
 
+(* one SEVM executes the invariant transaction on EVERY frontier state and its bounded-loop log is read once, at the
+   end: the log accumulates over the transactions (regenerated: run_message does not replace / clear self.logs), so a
+   loop cut on ANY frontier state -- not only the last -- is warned about.  For every number of states / targets. *)
+Theorem C10_invariant_all_states_flags : forall s targets states,
+  loop_bound_warned (mkInvRun s targets (sevm_logs_after states)) = true <->
+  (s = true \/ In true targets \/ In true states).
+Proof. exact invariant_run_loop_bound_warned. Qed.
+Print Assumptions C10_invariant_all_states_flags.
+
+(* an opcode halmos has no handler for ends the path with a HalmosException (regenerated from the catch-all arm of
+   the dispatch in SEVM.run, checked against the imported class hierarchy): such a path is stuck, hence -- by
+   C10_pass_no_stuck -- never part of a PASS unless the solver refuted it *)
+Theorem C10_unsupported_opcode_is_stuck :
+  unsupported_opcode_is_halmos_exception = true /\
+  forall (Q : Type) (l : leaf Q), root_err (l_ctx l) = EHalmos ->
+    (match l_data l with None => true | Some _ => match root_err (l_ctx l) with EHalmos => true | _ => false end end) = true.
+Proof. exact unsupported_opcode_stuck. Qed.
+Print Assumptions C10_unsupported_opcode_is_stuck.
+
 Example C10_nonvacuous :
   (* symbolic condition at the bound: the true side is cut and logged; one below the bound it is followed *)
   d_follow_true (jumpi_decide R_SAT R_SAT 2 0 2) = false /\ d_logged (jumpi_decide R_SAT R_SAT 2 0 2) = true /\
@@ -157,6 +176,9 @@ Example C10_nonvacuous :
   session 200 [mkTestRun (mkFunInfo 1 5 7 9) 2; mkTestRun (mkFunInfo 1 5 8 10) 1; mkTestRun (mkFunInfo 1 6 11 12) 0] [] = [true; true; false] /\
   (* the same signature in a second contract keeps its own warning; a second run of the very same test is de-duplicated *)
   session 200 [mkTestRun (mkFunInfo 1 5 7 9) 1; mkTestRun (mkFunInfo 2 5 7 9) 1; mkTestRun (mkFunInfo 1 5 7 9) 1] [] = [true; true; false] /\
+  (* the invariant cuts a loop on the first of three frontier states only: still warned *)
+  loop_bound_warned (mkInvRun false [false; false] (sevm_logs_after [true; false; false])) = true /\
+  sevm_logs_after [false; false] = false /\
   (* setUp: the only path is stuck inside a sub-call: no state is selected, and the path is reported *)
   setup_select unit (fun _ => S_SAT) [mkSpath false true tt] = SetupNoPath /\ setup_reports false true = true /\
   setup_select unit (fun _ => S_SAT) [mkSpath true false tt; mkSpath false false tt] = SetupOk (mkSpath false false tt) /\
